@@ -28,7 +28,7 @@ from urllib.parse import urlsplit
 import elementpath.aliases as ta
 
 from elementpath.protocols import ElementProtocol, EtreeElementProtocol
-from elementpath.exceptions import ElementPathTypeError
+from elementpath.exceptions import ElementPathError, ElementPathTypeError
 from elementpath.datatypes import AbstractBinary, AbstractDateTime, AnyAtomicType, \
     Base64Binary, BooleanProxy, DateTime, DoubleProxy, DoubleProxy10, Duration, \
     Language, NumericProxy, Timezone, UntypedAtomic
@@ -672,6 +672,19 @@ def evaluate__array_sort(self: XPathFunction, context: ta.ContextType = None) \
         return XPathArray(self.parser, items)
 
 
+def string_fallback(self: XPathFunction, func: XPathFunction) -> Callable[..., str]:
+    """Wraps a user fallback function of JSON functions: it must return a single string."""
+    def fallback(value: str, context: ta.ContextType = None) -> str:
+        result = func(value, context=context)
+        if isinstance(result, list) and len(result) == 1:
+            result = result[0]
+        if not isinstance(result, str):
+            raise self.error('XPTY0004', 'the fallback function must return an xs:string')
+        return result
+
+    return fallback
+
+
 @method(function('json-doc', nargs=(1, 2),
                  sequence_types=('xs:string?', 'map(*)', 'item()?')))
 @method(function('parse-json', nargs=(1, 2),
@@ -736,7 +749,7 @@ def evaluate__parse_json_functions(self: XPathFunction, context: ta.ContextType 
                     msg = "cannot provide both 'fallback' and 'escape' parameters"
                     raise self.error('FOJS0005', msg)
 
-                fallback = cast(Callable[..., str], v)
+                fallback = string_fallback(self, v)
                 escape = False
 
     def decode_value(value: ta.OneOrMore[ta.ItemType]) -> ta.OneOrEmpty[ta.ItemType]:
@@ -786,7 +799,10 @@ def evaluate__parse_json_functions(self: XPathFunction, context: ta.ContextType 
 
     try:
         result = json.JSONDecoder(**kwargs).decode(json_text)
-    except json.JSONDecodeError:
+    except ElementPathError:
+        raise
+    except ValueError:
+        # a JSONDecodeError or a number over the limit of Python on the digits of integers
         if href and urlsplit(href).fragment:
             raise self.error('FOUT1170') from None
         raise self.error('FOJS0001') from None
@@ -1293,7 +1309,7 @@ def evaluate__json_to_xml(self: XPathFunction, context: ta.ContextType = None) \
                     raise self.error('FOJS0005', msg)
                 if not isinstance(value, XPathFunction):
                     raise self.error('XPTY0004')
-                fallback = cast(Callable[..., str], value)
+                fallback = string_fallback(self, value)
 
             else:
                 raise self.error('FOJS0005')
@@ -1397,7 +1413,10 @@ def evaluate__json_to_xml(self: XPathFunction, context: ta.ContextType = None) \
             result = json.JSONDecoder(**kwargs).decode(json_text[1:])
         else:
             result = json.JSONDecoder(**kwargs).decode(json_text)
-    except json.JSONDecodeError as err:
+    except ElementPathError:
+        raise
+    except ValueError as err:
+        # a JSONDecodeError or a number over the limit of Python on the digits of integers
         raise self.error('FOJS0001', str(err)) from None
 
     if is_etree_element(result):
